@@ -475,25 +475,37 @@ pub fn array_reduce(
         (first, 1)
     };
 
+    // The accumulator may be a fresh object that only this native holds: keep it
+    // guarded between callback invocations and hand the guard to the caller.
+    let mut acc_guard = interp.guard_value(&accumulator);
+
     for i in start_index..length {
         if has_array_like_element(&arr, i) {
             let elem = get_array_like_element(&arr, i);
 
             let Guarded {
                 value: acc,
-                guard: _acc_guard,
+                guard: _call_guard,
             } = interp.call_function(
                 callback.clone(),
                 JsValue::Undefined,
-                &[accumulator, elem, JsValue::Number(i as f64), this.clone()],
+                &[
+                    accumulator.clone(),
+                    elem,
+                    JsValue::Number(i as f64),
+                    this.clone(),
+                ],
             )?;
+            let new_guard = interp.guard_value(&acc);
             accumulator = acc;
+            acc_guard = new_guard;
         }
     }
 
-    // Accumulator is a derived value - no guard needed as it's either a primitive
-    // or an object from the array/callback which is already owned
-    Ok(Guarded::unguarded(accumulator))
+    Ok(Guarded {
+        value: accumulator,
+        guard: acc_guard,
+    })
 }
 
 pub fn array_find(
@@ -1572,6 +1584,11 @@ pub fn array_reduce_right(
         (elem, length as i64 - 2)
     };
 
+    // Keep the accumulator guarded between callback invocations (see array_reduce)
+    let _callback_guard = interp.guard_value(&callback);
+    let _arr_guard = interp.guard_value(&this);
+    let mut acc_guard = interp.guard_value(&accumulator);
+
     for i in (0..=start_index).rev() {
         let elem = arr
             .borrow()
@@ -1590,11 +1607,15 @@ pub fn array_reduce_right(
                 this.clone(),
             ],
         )?;
+        let new_guard = interp.guard_value(&result);
         accumulator = result;
+        acc_guard = new_guard;
     }
 
-    // Accumulator is a derived value - no guard needed
-    Ok(Guarded::unguarded(accumulator))
+    Ok(Guarded {
+        value: accumulator,
+        guard: acc_guard,
+    })
 }
 
 pub fn array_flat(
